@@ -162,13 +162,15 @@ pub struct Pat {
     pub arg_order: Vec<usize>,
     /// render callback positionally (`#[regex("..", cb)]`) instead of `callback = cb`
     pub cb_positional: bool,
+    /// raw callback expression overriding the rendered one (L-level only)
+    pub cb_text: Option<String>,
 }
 
 impl Pat {
     pub fn new(kind: PatKind, lit: Lit, variant: usize) -> Pat {
         Pat {
             kind, lit, ignore_case: false, priority: None, allow_greedy: None, cb: None, variant,
-            arg_order: vec![], cb_positional: false,
+            arg_order: vec![], cb_positional: false, cb_text: None,
         }
     }
     pub fn token(text: &str, variant: usize) -> Pat {
@@ -231,6 +233,9 @@ pub struct Def {
     pub logos_split: bool,
     /// further raw items of the enum-level #[logos(...)] attribute (e.g. `crate = ::logos`)
     pub extra_logos_items: Vec<String>,
+    /// raw generic parameter list of the enum (e.g. `<'a, T>`) and raw extra variants (L-level only)
+    pub raw_generics: String,
+    pub raw_variants: String,
 }
 
 impl Def {
@@ -238,7 +243,7 @@ impl Def {
         Def {
             name: name.to_string(), family: family.to_string(), utf8, utf8_explicit: false,
             subpats: vec![], pats: vec![], variants: vec![], error: ErrKind::Unit, logos_order: vec![],
-            logos_split: false, extra_logos_items: vec![],
+            logos_split: false, extra_logos_items: vec![], raw_generics: String::new(), raw_variants: String::new(),
         }
     }
 
@@ -275,7 +280,7 @@ impl Def {
         let mut args = vec![];
         if let Some(cb) = &p.cb {
             if !p.cb_positional {
-                args.push(format!("callback = {}", cb_expr(cb, def_name, leaf)));
+                args.push(format!("callback = {}", cb_expr_of(p, cb, def_name, leaf)));
             }
         }
         if let Some(prio) = p.priority {
@@ -295,7 +300,7 @@ impl Def {
         let mut out = p.lit.render();
         if let (Some(cb), true) = (&p.cb, p.cb_positional) {
             out.push_str(", ");
-            out.push_str(&cb_expr(cb, &self.name, leaf));
+            out.push_str(&cb_expr_of(p, cb, &self.name, leaf));
         }
         let named = Self::named_args(p, &self.name, leaf);
         let order: Vec<usize> = if p.arg_order.len() == named.len() {
@@ -360,7 +365,9 @@ impl Def {
             out.push_str(&format!("#[logos({})]\n", joined.join(", ")));
         }
         let needs_lt = self.variants.iter().any(|v| *v == VarKind::Slice);
-        if needs_lt {
+        if !self.raw_generics.is_empty() {
+            out.push_str(&format!("pub enum {}{} {{\n", self.name, self.raw_generics));
+        } else if needs_lt {
             out.push_str(&format!("pub enum {}<'s> {{\n", self.name));
         } else {
             out.push_str(&format!("pub enum {} {{\n", self.name));
@@ -382,6 +389,7 @@ impl Def {
                 VarKind::U64 => out.push_str(&format!("    {}(u64),\n", Self::variant_name(vi))),
             }
         }
+        out.push_str(&self.raw_variants);
         out.push_str("}\n");
         out
     }
@@ -395,11 +403,11 @@ impl Def {
                 "lit": p.lit.to_json(), "ignore_case": p.ignore_case, "priority": p.priority,
                 "allow_greedy": p.allow_greedy, "variant": p.variant,
                 "cb": p.cb.as_ref().map(|c| json!({"ret": c.ret.name(), "inline": c.inline, "bump": c.bump, "salt": c.salt, "target": c.target})),
-                "arg_order": p.arg_order, "cb_positional": p.cb_positional,
+                "arg_order": p.arg_order, "cb_positional": p.cb_positional, "cb_text": p.cb_text,
             })).collect::<Vec<_>>(),
             "variants": self.variants.iter().map(|v| match v { VarKind::Unit => "unit", VarKind::Slice => "slice", VarKind::U64 => "u64" }).collect::<Vec<_>>(),
             "error": match self.error { ErrKind::Unit => "unit", ErrKind::Custom => "custom", ErrKind::CustomCb => "customcb" },
-            "logos_order": self.logos_order, "logos_split": self.logos_split, "extra_logos_items": self.extra_logos_items,
+            "logos_order": self.logos_order, "logos_split": self.logos_split, "extra_logos_items": self.extra_logos_items, "raw_generics": self.raw_generics, "raw_variants": self.raw_variants,
             "source": self.render(),
         })
     }
@@ -429,6 +437,7 @@ impl Def {
                 }) },
                 arg_order: p["arg_order"].as_array().map(|a| a.iter().map(us).collect()).unwrap_or_default(),
                 cb_positional: p["cb_positional"].as_bool().unwrap_or(false),
+                cb_text: p["cb_text"].as_str().map(|s| s.to_string()),
             }).collect(),
             variants: v["variants"].as_array().unwrap().iter().map(|x| match x.as_str().unwrap() {
                 "unit" => VarKind::Unit, "slice" => VarKind::Slice, _ => VarKind::U64 }).collect(),
@@ -436,12 +445,21 @@ impl Def {
             logos_order: v["logos_order"].as_array().map(|a| a.iter().map(us).collect()).unwrap_or_default(),
             logos_split: v["logos_split"].as_bool().unwrap_or(false),
             extra_logos_items: v["extra_logos_items"].as_array().map(|a| a.iter().map(|x| x.as_str().unwrap().to_string()).collect()).unwrap_or_default(),
+            raw_generics: v["raw_generics"].as_str().unwrap_or("").to_string(),
+            raw_variants: v["raw_variants"].as_str().unwrap_or("").to_string(),
         }
     }
 }
 
 pub fn cb_fn_name(def: &str, leaf: usize) -> String {
     format!("{}_cb{}", def.to_lowercase(), leaf)
+}
+
+fn cb_expr_of(p: &Pat, cb: &Cb, def: &str, leaf: usize) -> String {
+    match &p.cb_text {
+        Some(t) => t.clone(),
+        None => cb_expr(cb, def, leaf),
+    }
 }
 
 fn cb_expr(cb: &Cb, def: &str, leaf: usize) -> String {
